@@ -170,6 +170,54 @@ impl PropCase for Tile {
     }
 }
 
+/// noise runs too long to materialise (2^32 and beyond): fed byte by byte, the two expected events are
+/// checked directly (thorough tier only)
+pub struct HugeNoise {
+    pub n: u64,
+    pub fill: u8,
+}
+
+impl PropCase for HugeNoise {
+    fn to_case(&self) -> Case {
+        Case::new("hugenoise").s("n", &self.n.to_string()).n("fill", self.fill as usize)
+    }
+    fn from_case(c: &Case) -> Result<Self, String> {
+        Ok(HugeNoise { n: c.get("n")?.parse::<u64>().map_err(|e| e.to_string())?, fill: c.num("fill")? as u8 })
+    }
+    fn check(&self, ctx: &mut Ctx) -> Verdict {
+        let q = vec![0x0a, 0x0b, 0x0c];
+        let f = ref_encode(&q);
+        let mut d = new_decoder(BufKind::Vec);
+        for i in 0..self.n {
+            if let Err(e) = d.push(self.fill) {
+                return Err(Fail::new("tiling/huge-noise", "no event while only noise arrives", format!("{:?} at byte {}", e, i)));
+            }
+            if i & 0x0fff_ffff == 0 {
+                ctx.heartbeat();
+            }
+        }
+        let mut evs = Vec::new();
+        for (i, b) in f.iter().enumerate() {
+            match d.push(*b) {
+                Ok(None) => {}
+                Ok(Some(p)) => evs.push((i, TEv::Ok(p))),
+                Err(e) => evs.push((i, TEv::Err(e))),
+            }
+        }
+        let want = vec![(7usize, TEv::Err(DErr::Discarded(self.n as usize))), (f.len() - 1, TEv::Ok(q.clone()))];
+        ensure!(
+            evs.len() == 2 && evs[0].1 == want[0].1 && evs[1] == want[1],
+            "tiling/huge-noise",
+            format!("DiscardedBytes({}) and then Ok({}) at the frame's last byte", self.n, hex_short(&q)),
+            log_str(&evs)
+        );
+        ctx.maxi("max_discard_count_verified", self.n);
+        ctx.bump("huge-noise-cases");
+        ctx.class_s(&format!("huge noise 2^{} fill {:02x}", 63 - self.n.leading_zeros(), self.fill));
+        Ok(())
+    }
+}
+
 /// reader with I/O errors: the count attached to an error must equal the not-yet-reported bytes
 pub struct TileIo {
     pub items: Vec<Item>,
@@ -303,10 +351,12 @@ pub fn run(ctx: &mut Ctx) {
                 if !ctx.mine(k) {
                     continue;
                 }
-                if n >= 1 << 20 && (shape > 1 || fill == 0x01) {
+                if n >= 1 << 20 && (shape > 1 || (fill == 0x01 && shape != 0)) {
                     continue;
                 }
                 let parts = match shape {
+                    // a frame in flight for n bytes (raw body), never finished
+                    0 if fill == 0x01 => vec![Part::Lit(f[..8].to_vec()), Part::Run(n, 0x41)],
                     0 => vec![Part::Run(n, fill), Part::Lit(f.clone())],
                     1 => vec![Part::Lit(f.clone()), Part::Run(n, fill)],
                     2 => vec![Part::Lit(f.clone()), Part::Run(n, fill), Part::Lit(f.clone()), Part::Run(7, fill)],
@@ -315,6 +365,14 @@ pub fn run(ctx: &mut Ctx) {
                 for end in ['f', 'r'] {
                     ctx.eval(&Tile { parts: parts.clone(), buf: BufKind::Vec, end, origin: "long-noise" });
                 }
+            }
+        }
+    }
+    // noise beyond 2^32 bytes (thorough only, one worker per fill byte)
+    if !ctx.quick() {
+        for (i, fill) in [0x55u8, 0x1b].iter().enumerate() {
+            if ctx.mine(i as u64 + 11) {
+                ctx.eval(&HugeNoise { n: (1u64 << 32) + 5, fill: *fill });
             }
         }
     }
